@@ -11,6 +11,7 @@ import (
 	"path/filepath"
 	"time"
 
+	goframe "github.com/kishyassin/goframe"
 	"github.com/kishyassin/goframe/dataframe"
 	"github.com/wcharczuk/go-chart/v2"
 )
@@ -144,6 +145,9 @@ func (r *Runner) execView(o Op, df *dataframe.DataFrame) Out {
 			return errOut(err)
 		}
 		s := dataframe.NewSeries(c.Name, c.Data)
+		if viaRoot(o) {
+			s = goframe.NewSeries(c.Name, c.Data)
+		}
 		if c.Len() != s.Len() {
 			return Out{Status: "ok", Val: &Val{K: "strs", Strs: []BStr{"Column.Len and Series.Len disagree"}}}
 		}
